@@ -211,9 +211,7 @@ def explain (g : SG) (k : Nat) : Op → Out → Option String
   | .edgeToIndex a b, o =>
     if g.hasEdge a b then match o with
       | .nat i => if i < (specEdgeKeys g k).length then none else some s!"to_index(({a},{b})) = {i} is not below edge_count"
-      | .panic =>
-        -- only the other orientation of an undirected edge may be refused (see `OutOk`)
-        if !g.directed && a != b then none else some s!"to_index(({a},{b})) panicked although ({a},{b}) is an edge"
+      | .panic => some s!"to_index(({a},{b})) panicked although ({a},{b}) is an edge"
       | _ => some s!"edge to_index answered [{showOut o}]"
     else (expectOut .panic o).map fun why => s!"to_index(({a},{b})) of a pair that is not an edge: {why}"
   | .edgeFromIndex i, o =>
